@@ -112,6 +112,16 @@ def run(ctx):
     extra.append(_ob)
     failures += _sf
     ctx.log("lean:", "ok" if lean["ok"] else "NOT ok")
+    # the integer conditions of Synchronize / selectOutbounds / min, regenerated from the source on this run
+    arith_generated = []
+    gen, obs, afails, aths = vlib.arith_tie(prop)
+    if gen:
+        arith_generated.append(gen)
+    extra += obs
+    failures += afails
+    lean["theorems"] = lean["theorems"] + aths
+    lean["ok"] = lean["ok"] and all(t["ok"] for t in aths) and not afails
+    ctx.log(f"arith tie (Gen.* regenerated from the source): {'ok' if not afails else 'NOT ok'}")
 
     ok, binary, blog = vlib.go_build("runeigh")
     driver = vlib.lean_exe(PKG, "neighdriver")
@@ -177,7 +187,7 @@ def run(ctx):
             f"{len(failures)} failure(s)")
     notes = ("Endpoint-level clauses are always checked on the implementation; hits: "
              + json.dumps(corr["hist"].get("strong_reading_hits", {}), sort_keys=True))
-    return vlib.result(lean=lean, corr=corr, failures=failures, extra_obligations=extra,
+    return vlib.result(lean=lean, corr=corr, failures=failures, generated=arith_generated, extra_obligations=extra,
                        assumptions=ASSUMPTIONS, trusted_base=TRUSTED, notes=notes)
 
 
